@@ -22,7 +22,9 @@ ReportsPerFile == \A j \in 1 .. Len(R.order) : R.diag[j] = R.single_diag[j]
 (* what an invocation prints is the union (as a multiset of per-file sections: stdout     *)
 (* sections, json records, diff blocks) of what each of its inputs prints alone -- also   *)
 (* when the same path is reached more than once (named twice, or both as a root and as a  *)
-(* module of another root).  sections / single_sections are sorted lists of path#hash.   *)
+(* module of another root).  sections / single_sections are lists of path#hash.          *)
+(* ... and in the order of the inputs: sections / single_sections are the lists in the order   *)
+(* printed (the sections of the first input, then those of the second, ...)                   *)
 SectionsAreUnion == R.sections = R.single_sections
 
 Names == {"Functional", "ExitIsMax", "ReportsPerFile", "SectionsAreUnion"}
